@@ -5,7 +5,7 @@ from engine.driver.encode import Constraint
 
 ID = "C16"
 HARNESS = "C16_history.cpp"
-EXPLANATION = "A 3-body model with gravity (magnitude, axis direction, zero height, exclusions), mobility spring/damper/stop, two-point spring, discrete mobility and body forces, enable flags and a velocity-level lock is driven through a scripted history of variable changes (to OLD symbolic values), realizations to arbitrary stages and queries, and finally every variable is set to its FINAL symbolic value; a fresh State receives only the final values. The solver proves that every result (udot, qdot, energies, body/mobility force arrays, body accelerations, reactions) of the history State equals the fresh State's result as a real function of the final values - in particular that no OLD value survives (a stale cache appears as a polynomial that still mentions an old_* variable)."
+EXPLANATION = "A 3-body model with gravity (magnitude, axis direction, zero height, exclusions), mobility spring/damper/stop, two-point spring, discrete mobility and body forces, enable flags and a velocity-level lock is first given the FINAL symbolic value of every variable and realized; then, in several rounds, a few variables are changed to OLD symbolic values (with realizations to arbitrary stages and queries in between) and written back to their final values - so that at the end only those few variables were modified last and every cache filled earlier is exposed; a fresh State receives only the final values. The solver proves that every result (udot, qdot, energies, body/mobility force arrays, body accelerations, reactions) of the history State equals the fresh State's result as a real function of the final values - in particular that no OLD value survives (a stale cache appears as a polynomial that still mentions an old_* variable)."
 BOUNDS = "histories are ENUMERATED (24 quick / 600 thorough scripts of length 6-14 from a seeded grammar over 22 variables/setters (incl. setGravityVector with the final magnitude and another direction), 6 realization stages, queries), the solver quantifies over all real values of every old and final variable (free) with the two pin angles free one at a time; 1 base point quick, 2 thorough"
 NOT_COVERED = "histories outside the enumerated scripts; modelling-option changes (Euler/quaternion) and topology changes; constraint enable flags (multipliers need LAPACK); event witnesses"
 TECHNIQUE = "instrumented symbolic execution of the real library on scripted histories -> polynomial equality of history-state and fresh-state results over all old/final values, decided by z3 (cvc5 cross-check)"
